@@ -255,7 +255,23 @@ def purity_section(tier, seed):
             if a != b and len(fails) < 3:
                 fails.append({'kind': 'input-mutated', 'value_index': i, 'value': repr(vals[i])[:200], 'settings': st,
                               'before': repr(a)[:400], 'after': repr(b)[:400]})
-    stats = {'evaluations': tot, 'distinct_nontrivial': nt, 'corpus': len(vals), 'settings': len(settings_list), 'mismatches': 0,
+    # calls with DIFFERENT settings interleaved in one interpreter (the same width with another ribbon_width among them): the text of a
+    # call depends on its own settings only, not on the settings of the calls before it
+    mixed = [{}, {'ribbon_width': 30}, {'width': 40}, {'width': 40, 'ribbon_width': 40}, {'width': 79, 'ribbon_width': 60}, {'width': 20, 'indent': 2}]
+    sample = sorted(set(rng.sample(idx, 10)) | {i for i, v in enumerate(vals) if isinstance(v, str) and len(v) > 40} | {i for i, v in enumerate(vals) if isinstance(v, list) and len(v) > 20} |
+                    {i for i, v in enumerate(vals) if type(v) in (list, dict, tuple) and len(v) <= 2 and any(isinstance(x, str) and 35 <= len(x) <= 60 for x in (v.values() if isinstance(v, dict) else v))})
+    fresh_by = [fresh_outputs(sample, st) for st in mixed]
+    for _ in range(4 if tier == 'quick' else 30):
+        calls = [(rng.choice(sample), rng.randrange(len(mixed))) for _ in range(60)]
+        for (i, k) in calls:
+            o = print_all([vals[i]], mixed[k])[0]
+            tot += 1
+            if i in fresh_by[k] and canon(o) != canon(fresh_by[k][i]) and len(fails) < 3:
+                fails.append({'kind': 'output-depends-on-history', 'value_index': i, 'value': repr(vals[i])[:200], 'settings': mixed[k],
+                              'printed_first_in_a_fresh_interpreter': fresh_by[k][i][:400], 'printed_after_others': o[:400],
+                              'history': 'calls with other settings (widths, ribbon widths, indents) came before in the same interpreter'})
+        nt += 1
+    stats = {'evaluations': tot, 'distinct_nontrivial': nt, 'corpus': len(vals), 'settings': len(settings_list), 'mismatches': 0, 'mixed_settings_histories': True,
              'samples': [{'value': repr(vals[30])[:100]}, {'value': repr(vals[33])[:100]}],
              'rule': 'a corpus of %d values (built-ins, cycles, shared substructure, both zeros, stdlib types, unregistered objects) printed (a) as every ordered pair, and sampled triples, from a forked state in which nothing has been printed, (b) in random '
                      'permutations with repetitions under %d settings; every output compared with the one obtained when that value is printed first in a '
